@@ -950,6 +950,8 @@ func (fr *Frame) evalCall(sc *Scope, x *ECall) Val {
 		kv := Val{K: KKey, T: mt.Key(), C: []Term{bv}}
 		if isInteger(mt.Key()) {
 			kv = scalar(mt.Key(), bv) // integer keys are their own key terms: usable in arithmetic
+		} else if _, isPtr := mt.Key().Underlying().(*types.Pointer); isPtr && bv.Sort == SInt {
+			kv = scalar(mt.Key(), bv) // pointer keys are references: fields can be selected
 		}
 		body := fr.evalBool(sc.with(id.Name, kv), x.Args[2])
 		return scalar(boolT, Forall([]Term{bv}, body))
